@@ -5,7 +5,7 @@
     per pool the tree size after every block; [true_pos size] is the position of the last leaf. *)
 From Coq Require Import ZArith List Lia Bool.
 From V.Lib Require Import Base MachInt.
-From V.C06 Require Import Model Spec PRange PLedger PPut PMain PExtra PMore Corr Wf Bridge.
+From V.C06 Require Import Model Spec PRange PLedger PPut PMain PExtra PMore PTcs Corr Wf Bridge.
 Import ListNotations.
 Local Open Scope Z_scope.
 
@@ -38,12 +38,13 @@ Proof. exact ensure_true. Qed.
 
 (** ckpt_position_true: in every state reachable by scans of batches that continue the current
     chain (any order, any batching, any policy), rewinds, and reorgs above the rewound height,
-    every checkpoint of every pool points at the true tree size of its height. *)
+    every checkpoint of every pool points at the true tree size of its height. [reach] also includes
+    truncate_to_chain_state with the chain's own state of the target height. *)
 Theorem C06_ckpt_position_true : forall budget chunk c w,
-  reachable budget chunk c w -> forall i h p,
+  reach budget chunk c w -> forall i h p,
   In (h, p) (ck (proj_pool i w)) -> p = true_pos (proj_chain i c h).
 Proof.
-  intros budget chunk c w H i h p. exact (proj1 (w3_true_proj c w) (reachable_true _ _ _ _ H) i h p).
+  intros budget chunk c w H i h p. exact (proj1 (w3_true_proj c w) (reach_true _ _ _ _ H) i h p).
 Qed.
 
 (** one step of the above, for an arbitrary state with true checkpoints *)
@@ -55,25 +56,25 @@ Proof. exact put3_true. Qed.
 (** a batch that continues the chain is never refused by the checkpoint ledger
     (no CheckpointConflict) in a reachable state *)
 Theorem C06_put_never_conflicts : forall budget chunk c w pol f bs e,
-  reachable budget chunk c w -> opol_ok pol -> consistent c f bs ->
+  reach budget chunk c w -> opol_ok pol -> consistent c f bs ->
   put3 budget chunk pol f bs w <> Err e.
 Proof.
   intros budget chunk c w pol f bs e H Hp Hc. apply (put3_no_err _ _ _ _ c); auto.
-  exact (reachable_true _ _ _ _ H).
+  exact (reach_true _ _ _ _ H).
 Qed.
 
 (** put_blocks on a batch that continues the chain SUCCEEDS in every reachable state (positive
     budget): neither an error nor the [expect] panic of update_tree *)
 Theorem C06_put_total : forall budget chunk c w pol f bs,
-  0 < budget -> reachable budget chunk c w -> opol_ok pol -> consistent c f bs ->
+  0 < budget -> reach budget chunk c w -> opol_ok pol -> consistent c f bs ->
   exists w', put3 budget chunk pol f bs w = Ok w'.
-Proof. exact put3_total. Qed.
+Proof. exact put3_total_reach. Qed.
 
 (** in every reachable state each pool's checkpoint table is strictly ascending in height (one
     checkpoint per height) *)
 Theorem C06_ledger_sorted : forall budget chunk c w i,
-  reachable budget chunk c w -> sck (ck (proj_pool i w)).
-Proof. intros budget chunk c w i H. exact (reachable_sorted _ _ _ _ H i). Qed.
+  reach budget chunk c w -> sck (ck (proj_pool i w)).
+Proof. intros budget chunk c w i H. exact (reach_sorted _ _ _ _ H i). Qed.
 
 (** the batch's starting frontier height, when the policy retains it, is registered as a retained
     anchor in every pool, and retained ids are never dropped by put_blocks *)
@@ -141,6 +142,20 @@ Theorem C06_truncate_sound : forall blocks mn req w h w',
        (forall e, In e (ck (proj_pool i w')) <-> (In e (ck (proj_pool i w)) /\ fst e <= h))) /\
   (~ h < last -> w' = w).
 Proof. exact truncate_to_height_sound. Qed.
+
+(** truncate_to_chain_state (repaired): retained ids unchanged; every checkpoint afterwards is an old
+    one or the new one at the target with the given frontier position; when scanned blocks lie
+    above the target, a pool that is checkpointed at the target holds nothing above it. *)
+Theorem C06_truncate_to_chain_state_sound : forall budget blocks mn target sizes w w',
+  truncate_to_chain_state budget blocks mn target sizes w = Ok w' ->
+  (forall i, rt (proj_pool i w') = rt (proj_pool i w) /\
+     forall e, In e (ck (proj_pool i w')) ->
+       In e (ck (proj_pool i w)) \/ e = (target, frontier_pos (sizes_of i sizes))) /\
+  (forall last, zmax_list blocks = Some last -> target < last ->
+     forall i, (forall e, In e (ck (proj_pool i w')) -> fst e <= target)
+               \/ has_at (ck (proj_pool i w')) target = false) /\
+  (w3_sorted w -> w3_sorted w').
+Proof. exact tcs_spec. Qed.
 
 (** the five outcomes of plan_tree_truncation: when each applies and what it does; the two
     refusals return an error without a new state *)
